@@ -21,9 +21,10 @@ open Pyg
 `f(...)` itself, after exactly one call of `f` on the given values — whatever `on`, the defaults
 and the expiry are -/
 theorem scalar_passthrough (f : List Cell → Val) (params on : List String)
-    (defaults : List (String × Cell)) (inputs : List (String × Cell)) (e : Cell) (today : Int) :
+    (defaults : List (String × Cell)) (inputs : List (String × Cell)) (e : Cell) (today : Int)
+    (ifNone : Bool) :
     let args := params.map (argOf (inputs ++ [("expiry", e)]))
-    perdictable f params on defaults (inputs.map fun kv => (kv.1, .scalar kv.2)) (.scalar e) today
+    perdictable f params on defaults (inputs.map fun kv => (kv.1, .scalar kv.2)) (.scalar e) today ifNone
       = some (.ok (.value (f args), [args])) := by
   intro args
   have hm : ((inputs.map fun kv => (kv.1, PInput.scalar kv.2)) ++ [("expiry", PInput.scalar e)])
@@ -67,9 +68,9 @@ theorem table_result (f : List Cell → Val) (params on : List String)
         (if (defaults.map (·.1)).contains "expiry" then [] else [("expiry", Cell.none)]))
       = some (.ok ds))
     (hn : ds.nrows ≠ 0) (ht : (inputs ++ [("expiry", expiry)]).any (fun kv => kv.2.isTable) = true)
-    (hon : on ≠ []) (hk : ds.select on = .ok keyCols) :
-    let runs := rowRuns ds (ds.cols.contains "data") today
-    perdictable f params on defaults inputs expiry today = some (.ok (
+    (hon : on ≠ []) (hk : ds.select on = .ok keyCols) (ifNone : Bool) :
+    let runs := rowRuns ifNone ds (ds.cols.contains "data") today
+    perdictable f params on defaults inputs expiry today ifNone = some (.ok (
       .table (keyCols.toV ++ [("data", (List.range ds.nrows).map fun i =>
         if runs i then f (rowArgs ds params i) else .cell (ds.jcellAt "data" i))]),
       ((List.range ds.nrows).filter runs).map (rowArgs ds params))) := by
@@ -79,23 +80,28 @@ theorem table_result (f : List Cell → Val) (params on : List String)
     hon', hk]
   rw [← evalRows_values, ← evalRows_log]
 
-/-- a row is *kept* (not computed) exactly when a previous value column exists and the row's expiry
-is a date strictly before today; `None` or a date from today on means (re)compute -/
-theorem row_kept_iff (ds : Table) (hasData : Bool) (today : Int) (i : Nat)
+/-- a row is *kept* (not computed) exactly when a previous value column exists, the row's expiry
+is a date strictly before today — `None` or a date from today on means (re)compute — and, with
+`if_none = True`, the previous value is not `None` -/
+theorem row_kept_iff (ifNone : Bool) (ds : Table) (hasData : Bool) (today : Int) (i : Nat)
     (hc : ds.jcellAt "expiry" i = .none ∨ ∃ us, ds.jcellAt "expiry" i = .dt us) :
-    rowRuns ds hasData today i = false ↔
-      hasData = true ∧ ∃ us, ds.jcellAt "expiry" i = .dt us ∧ us < today := by
+    rowRuns ifNone ds hasData today i = false ↔
+      hasData = true ∧ (ifNone = true → ds.jcellAt "data" i ≠ .none) ∧
+        ∃ us, ds.jcellAt "expiry" i = .dt us ∧ us < today := by
+  have hnone : (ds.jcellAt "data" i).isNone = false ↔ ds.jcellAt "data" i ≠ .none := by
+    cases ds.jcellAt "data" i <;> simp [Cell.isNone]
   rcases hc with h | ⟨us, h⟩
   · simp [rowRuns, h, runExpiry]
   · simp only [rowRuns, h, runExpiry, Bool.or_eq_false_iff, Bool.not_eq_false',
-      decide_eq_false_iff_not, Int.not_le, Cell.dt.injEq, exists_eq_left']
+      decide_eq_false_iff_not, Int.not_le, Cell.dt.injEq, exists_eq_left', Bool.and_eq_false_imp,
+      hnone, and_assoc]
 
 /-- **calls once**: a computed row contributes exactly one entry to the log, a kept row none -/
-theorem calls_once (f : List Cell → Val) (params : List String) (ds : Table) (hasData : Bool)
-    (today : Int) (n : Nat) :
-    (evalRows f params ds hasData today (List.range n)).2.length =
-      ((List.range n).filter (rowRuns ds hasData today)).length ∧
-    (evalRows f params ds hasData today (List.range n)).1.length = n := by
+theorem calls_once (ifNone : Bool) (f : List Cell → Val) (params : List String) (ds : Table)
+    (hasData : Bool) (today : Int) (n : Nat) :
+    (evalRows ifNone f params ds hasData today (List.range n)).2.length =
+      ((List.range n).filter (rowRuns ifNone ds hasData today)).length ∧
+    (evalRows ifNone f params ds hasData today (List.range n)).1.length = n := by
   rw [evalRows_log, evalRows_values]; simp
 
 /-- no key survives the join: `f` is never called and the supplied `data` (or `None`) is returned -/
@@ -106,8 +112,8 @@ theorem no_rows (f : List Cell → Val) (params on : List String)
       (defaults ++ (if (defaults.map (·.1)).contains "data" then [] else [("data", Cell.none)]) ++
         (if (defaults.map (·.1)).contains "expiry" then [] else [("expiry", Cell.none)]))
       = some (.ok ds))
-    (hn : ds.nrows = 0) :
-    perdictable f params on defaults inputs expiry today =
+    (hn : ds.nrows = 0) (ifNone : Bool) :
+    perdictable f params on defaults inputs expiry today ifNone =
       some (.ok (.noRows ((inputs.find? (·.1 == "data")).map (·.2)), [])) := by
   simp only [perdictable, hj, hn, if_true]
 
@@ -559,7 +565,8 @@ joined table `ds` such that
   default, scalars broadcast;
 * if no key survives, `f` is never called and the supplied `data` (or `None`) is returned;
 * otherwise the result has the key columns of `ds` and, per row, **`f` of that row's values** — or
-  the previous value when the row is protected by a past expiry (`row_kept_iff`) — and the log of
+  the previous value when the row is protected by a past expiry (`row_kept_iff`; with
+  `if_none = True` a previous value `None` does not protect) — and the log of
   calls of `f` is exactly the list of the unprotected rows: **each computed exactly once**, in row
   order, no other call. -/
 theorem perdictable_end_to_end (f : List Cell → Val) (params on : List String)
@@ -569,7 +576,8 @@ theorem perdictable_end_to_end (f : List Cell → Val) (params on : List String)
     (hoff : ∀ kv ∈ inputs ++ [("expiry", expiry)], kv.1 ∉ on)
     (htab : ∀ kv ∈ tableInputs (inputs ++ [("expiry", expiry)]), kv.2.WF ∧ ∀ c ∈ on, c ∈ kv.2.cols)
     (hany : tableInputs (inputs ++ [("expiry", expiry)]) ≠ [])
-    (h : perdictable f params on defaults inputs expiry today = some (.ok res)) :
+    (ifNone : Bool)
+    (h : perdictable f params on defaults inputs expiry today ifNone = some (.ok res)) :
     ∃ ds : Table,
       pdJoin (inputs ++ [("expiry", expiry)]) on
         (defaults ++ (if (defaults.map (·.1)).contains "data" then [] else [("data", Cell.none)]) ++
@@ -580,7 +588,7 @@ theorem perdictable_end_to_end (f : List Cell → Val) (params on : List String)
           (if (defaults.map (·.1)).contains "expiry" then [] else [("expiry", Cell.none)])) ds ∧
       ((ds.nrows = 0 ∧ res = (.noRows ((inputs.find? (·.1 == "data")).map (·.2)), [])) ∨
        (ds.nrows ≠ 0 ∧
-        let runs := rowRuns ds (ds.cols.contains "data") today
+        let runs := rowRuns ifNone ds (ds.cols.contains "data") today
         res = (.table (Table.toV (on.map fun k => (k, (ds.col? k).getD [])) ++
             [("data", (List.range ds.nrows).map fun i =>
               if runs i then f (rowArgs ds params i) else .cell (ds.jcellAt "data" i))]),
@@ -596,7 +604,7 @@ theorem perdictable_end_to_end (f : List Cell → Val) (params on : List String)
       have hs := join_keys _ on _ ds hon hnames hoff htab hany hj
       refine ⟨ds, rfl, hs, ?_⟩
       by_cases hn : ds.nrows = 0
-      · rw [no_rows f params on defaults inputs expiry today ds hj hn] at h
+      · rw [no_rows f params on defaults inputs expiry today ds hj hn ifNone] at h
         simp only [Option.some.injEq, Except.ok.injEq] at h
         exact .inl ⟨hn, h.symm⟩
       · have ht : (inputs ++ [("expiry", expiry)]).any (fun kv => kv.2.isTable) = true := by
@@ -604,7 +612,7 @@ theorem perdictable_end_to_end (f : List Cell → Val) (params on : List String)
           rw [List.any_eq_true]
           exact ⟨_, mem_tableInputs.1 ha, rfl⟩
         have hk := select_ok ds on (fun k hk => (hs.cols k).2 (.inl hk))
-        have := table_result f params on defaults inputs expiry today ds _ hj hn ht hon hk
+        have := table_result f params on defaults inputs expiry today ds _ hj hn ht hon hk ifNone
         simp only at this
         rw [this] at h
         simp only [Option.some.injEq, Except.ok.injEq] at h
@@ -621,8 +629,9 @@ theorem perdictable_returns (f : List Cell → Val) (params on : List String)
     (htab : ∀ kv ∈ tableInputs (inputs ++ [("expiry", expiry)]),
       kv.2.WF ∧ kv.2.cols.Nodup ∧ ∀ c ∈ on, c ∈ kv.2.cols)
     (hany : tableInputs (inputs ++ [("expiry", expiry)]) ≠ [])
-    (hitem : ∀ kv ∈ tableInputs (inputs ++ [("expiry", expiry)]), ∃ t, item kv.2 kv.1 on = .ok t) :
-    ∃ res, perdictable f params on defaults inputs expiry today = some (.ok res) := by
+    (hitem : ∀ kv ∈ tableInputs (inputs ++ [("expiry", expiry)]), ∃ t, item kv.2 kv.1 on = .ok t)
+    (ifNone : Bool) :
+    ∃ res, perdictable f params on defaults inputs expiry today ifNone = some (.ok res) := by
   obtain ⟨ds, hj⟩ := join_returns (inputs ++ [("expiry", expiry)]) on
     (defaults ++ (if (defaults.map (·.1)).contains "data" then [] else [("data", Cell.none)]) ++
       (if (defaults.map (·.1)).contains "expiry" then [] else [("expiry", Cell.none)]))
@@ -630,13 +639,13 @@ theorem perdictable_returns (f : List Cell → Val) (params on : List String)
   have hs := join_keys _ on _ ds hon hnames hoff
     (fun kv hkv => ⟨(htab kv hkv).1, (htab kv hkv).2.2⟩) hany hj
   by_cases hn : ds.nrows = 0
-  · exact ⟨_, no_rows f params on defaults inputs expiry today ds hj hn⟩
+  · exact ⟨_, no_rows f params on defaults inputs expiry today ds hj hn ifNone⟩
   · have ht : (inputs ++ [("expiry", expiry)]).any (fun kv => kv.2.isTable) = true := by
       obtain ⟨a, ha⟩ := List.exists_mem_of_ne_nil _ hany
       rw [List.any_eq_true]
       exact ⟨_, mem_tableInputs.1 ha, rfl⟩
     have hk := select_ok ds on (fun k hk => (hs.cols k).2 (.inl hk))
-    exact ⟨_, table_result f params on defaults inputs expiry today ds _ hj hn ht hon hk⟩
+    exact ⟨_, table_result f params on defaults inputs expiry today ds _ hj hn ht hon hk ifNone⟩
 
 /-! ## renames -/
 
@@ -700,12 +709,12 @@ renaming assignments — to which `perdictable_end_to_end` applies -/
 theorem perdictable_renames (f : List Cell → Val) (params on : List String)
     (renames : List (String × String)) (defaults : List (String × Cell))
     (inputs : List (String × PInput)) (expiry : PInput) (today : Int)
-    (res : PResult × List (List Cell))
-    (h : perdictableR f params on renames defaults inputs expiry today = some (.ok res)) :
+    (res : PResult × List (List Cell)) (ifNone : Bool)
+    (h : perdictableR f params on renames defaults inputs expiry today ifNone = some (.ok res)) :
     (∀ a ∈ tableInputs (inputs ++ [("expiry", expiry)]),
       applyRename a.2 a.1 renames = .ok (renamedT a.2 a.1 renames)) ∧
     perdictable f params on defaults (inputs.map (renamedIn renames))
-      (renamedIn renames ("expiry", expiry)).2 today = some (.ok res) := by
+      (renamedIn renames ("expiry", expiry)).2 today ifNone = some (.ok res) := by
   simp only [perdictableR] at h
   split at h
   · rename_i inputs' e' hm he
@@ -781,6 +790,15 @@ example : let inputs : List (String × PInput) := [("a", .table tA), ("b", .tabl
   | some (.ok t) => t.col? "k" == some [.int 1, .int 2, .int 3, .int 4]
   | _ => false)
 
+-- if_none = True: a previous value None (supplied, or the default for a key `data` lacks) is recomputed although its
+-- expiry is in the past; if_none = False keeps it (no call at all here)
+#guard (match perdictable fEx ["a"] ["k"] [] [("a", .table tA),
+      ("data", .table [("k", [.int 1, .int 2]), ("data", [.none, .str "old2"])])] (.scalar (.dt 5)) 10 true,
+    perdictable fEx ["a"] ["k"] [] [("a", .table tA),
+      ("data", .table [("k", [.int 1, .int 2]), ("data", [.none, .str "old2"])])] (.scalar (.dt 5)) 10 false with
+  | some (.ok (_, log1)), some (.ok (_, log2)) =>
+      log1 == [[.int 10], [.int 30]] && log2 == []
+  | _, _ => false)
 -- renames: parameter `a` takes the column `alt` of a table with two value columns
 #guard (match pdJoinR [("a", .table (tA ++ [("alt", [.int 33, .int 11, .int 22])])), ("b", .table tB)] ["k"]
     [("a", "alt")] [] with
